@@ -42,6 +42,11 @@ done
 if [ "$MODE" != quick ] && ( cd "$HERE/harness" && CARGO_TARGET_DIR="$TD" cargo build --offline --release --features security --bin vcheck-sec ) > "$LOGS/native-build-sec.log" 2>&1; then
   ( VERIF_SCALE=0.01 VERIF_THREADS=4 RUSTDDS_VERIF_DIR=/tmp/interp-sec-evidence-$$ valgrind --tool=memcheck --error-exitcode=9 --errors-for-leak-kinds=none --leak-check=no --num-callers=20 "$TD/release/vcheck-sec" C16 > "$LOGS/vg-sec-C16.log" 2>&1; rc=$?; [ $rc = 9 ] || rc=0; echo "EXIT=$rc" >> "$LOGS/vg-sec-C16.log"; rm -rf /tmp/interp-sec-evidence-$$ ) &
 fi
+# a full-stack scenario between SECURED participants over real UDP (handshake, key exchange, protected SEDP and user
+# traffic through ring / openssl), thorough only; as above, only valgrind's own diagnostics count
+if [ "$MODE" != quick ] && [ -x "$TD/release/vcheck-sec" ]; then
+  ( VERIF_PROBE=1 VERIF_PROBE_SEC=origin RUSTDDS_VERIF_DIR="$HERE" valgrind --tool=memcheck --error-exitcode=9 --errors-for-leak-kinds=none --leak-check=no --num-callers=20 "$TD/release/vcheck-sec" C07probe > "$LOGS/vg-stack-sec-1.log" 2>&1; rc=$?; [ $rc = 9 ] || rc=0; echo "EXIT=$rc" >> "$LOGS/vg-stack-sec-1.log" ) &
+fi
 SH_CASES=$(python3 -c "print(max(10,int(60*$SCALE)))")
 [ "$MODE" = quick ] || for k in 0 1 2 3; do
   ( VERIF_SEED=$SEED VERIF_DOMAIN=$((200+k)) valgrind --tool=memcheck --error-exitcode=9 --errors-for-leak-kinds=none --leak-check=no --num-callers=20 "$TD/release/vcheck" C06 --tier quick --shard-range $((500000+k*SH_CASES)) $((500000+(k+1)*SH_CASES)) --shard-out "$LOGS/vg-shard-$k.json" > "$LOGS/vg-shard-$k.log" 2>&1; echo "EXIT=$?" >> "$LOGS/vg-shard-$k.log" ) &
@@ -75,6 +80,7 @@ for f in sorted(glob.glob(logs+'/vg-*.log')):
     ex=re.search(r'EXIT=(\d+)',t); m=re.search(r'^VMIRI .*$',t,re.M)
     if m: counters(m.group(0),res["valgrind"]["counters"])
     if '/vg-stack-' in f and re.search(r'^completed=',t,re.M): res["valgrind"]["counters"]["real_udp_scenarios_run_to_the_end"]=res["valgrind"]["counters"].get("real_udp_scenarios_run_to_the_end",0)+1
+    if '/vg-stack-sec-' in f and re.search(r'^completed=',t,re.M): res["valgrind"]["counters"]["real_udp_scenarios_between_secured_participants_run_to_the_end"]=res["valgrind"]["counters"].get("real_udp_scenarios_between_secured_participants_run_to_the_end",0)+1
     if '/vg-sec-' in f and re.search(r'^C16 ',t,re.M): res["valgrind"]["counters"]["security_build_runs_to_the_end"]=res["valgrind"]["counters"].get("security_build_runs_to_the_end",0)+1
     verrs=re.findall(r'^==\d+== ((?:Invalid|Conditional jump|Use of uninit|Syscall param|Mismatched|Source and dest|Argument).*)$',t,re.M)
     if ex and ex.group(1)=='0' and not verrs:
